@@ -41,9 +41,9 @@ type Oracles struct {
 	nacked    map[leafKey]int
 	written   map[leafKey]int
 	// deliveries confirmed in a DLQ: seq of DLQ_ACK ok
-	dlqOK     map[delivKey]int
-	dlqWrites map[delivKey]int // count of DLQ writes per delivery
-	dlqFailed map[delivKey]int
+	dlqOK      map[delivKey]int
+	dlqWrites  map[delivKey]int // count of DLQ writes per delivery
+	dlqFailed  map[delivKey]int
 	dlqState   map[delivKey]string // pending | ok | failed
 	dlqPending map[string][]delivKey
 	dlqFaulted map[string]bool
@@ -57,19 +57,19 @@ type Oracles struct {
 	// processing per (proc, record origin+path, delivery) count
 	processed map[string]int
 
-	ackedDeliveries map[delivKey]int
-	crashed         bool
-	ctl           *ctlState
-	rc            *reconfState
-	expectGiveUp  bool
-	expectRestart bool
-	runEnded      bool
-	statusWriteFailed bool
+	ackedDeliveries       map[delivKey]int
+	crashed               bool
+	ctl                   *ctlState
+	rc                    *reconfState
+	expectGiveUp          bool
+	expectRestart         bool
+	runEnded              bool
+	statusWriteFailed     bool
 	statusWriteFailedEver bool
-	bootInc         map[int]bool // incarnations whose first open per source was checked
-	firstOpen       map[string]bool
-	statusHist      []int
-	lastFaultSeq    int
+	bootInc               map[int]bool // incarnations whose first open per source was checked
+	firstOpen             map[string]bool
+	statusHist            []int
+	lastFaultSeq          int
 	// teardown/open pairing
 	opens     map[string]int
 	teardowns map[string]int
@@ -499,10 +499,22 @@ func (o *Oracles) onDurableChange(w *World, e *Event) {
 
 // quiescent: every source record has been acked at some time, or the pipeline is terminal.
 func (o *Oracles) quiescent(w *World) bool {
-	if st, _, ok := w.db.durableStatus(PipelineID); ok && st != 1 && st != 5 {
+	if st, ok := o.effStatus(w); ok && st != 1 && st != 5 {
 		return true
 	}
 	return o.allDrained(w)
+}
+
+// effStatus is the stored status, except after a failed status write: then the store may
+// never catch up and the engine's in-memory status is what drives the plan (never an oracle).
+func (o *Oracles) effStatus(w *World) (int, bool) {
+	st, _, ok := w.db.durableStatus(PipelineID)
+	if o.statusWriteFailedEver && w.memStatus != nil {
+		if ms := w.memStatus(); ms != 0 {
+			return ms, true
+		}
+	}
+	return st, ok
 }
 
 // allDrained: every source has either seen all of its records acknowledged at some time, or
@@ -642,7 +654,7 @@ func (o *Oracles) finalChecks(w *World) {
 			ms = w.memStatus()
 		}
 		switch {
-		case ok && (st == 2 || st == 3 || st == 4) && ms == st && len(open) > 0 && !o.statusWriteFailedEver && len(o.ctl.inFlight) == 0:
+		case ok && (st == 2 || st == 3 || st == 4) && ms == st && len(open) > 0 && len(o.ctl.inFlight) == 0:
 			w.violate("C11", "plugin-session-left-open", fmt.Sprintf("the pipeline is %s and nothing is in flight, yet plugin sessions %v opened by it were never torn down (idle for %d ms); the connectors are not released, the pipeline cannot be started again", statusName(st), open, idleMs))
 		case ok && st == 1 && len(open) > 0 && !o.statusWriteFailedEver && w.worldParked() == 0:
 			w.violate("C11", "run-never-ends", fmt.Sprintf("pipeline is still running with open plugin sessions %v after %d ms of simulated idleness; every plugin and store call has been served and no node is waiting for the outside world", open, idleMs))
